@@ -188,7 +188,13 @@ impl Check for C13 {
                 20 => vec!["ISON".into(), "rone".into(), "nobody".into()],
                 21 => vec!["WHO".into(), ["#c", "r*", "rone"][r.below(3)].into()],
                 22 => vec!["WHOIS".into(), "rone".into()],
-                23 => vec!["FROBNICATE".into(), word(&mut r, k)],
+                23 => {
+                    // unknown verbs, also ones whose non-ASCII letters turn into a known verb under Unicode case mapping
+                    // (dotless i, long s, sharp s, Kelvin sign): commands are matched case-insensitively in ASCII only
+                    let v = ["FROBNICATE", "FROBNICATE", "jo\u{131}n", "name\u{17f}", "pa\u{df}", "\u{212a}ick", "l\u{131}st", "priv\u{1e9e}msg"][r.below(8)];
+                    let arg = if v.starts_with("jo") || v.starts_with("name") { "#c".to_string() } else { word(&mut r, k) };
+                    vec![v.into(), arg]
+                }
                 24 => {
                     // wrong arity
                     let v = ["PRIVMSG", "KICK", "INVITE", "TOPIC", "MODE", "USERHOST", "OPER", "JOIN", "PING", "NICK"][r.below(10)];
@@ -487,11 +493,12 @@ async fn run_world(t: Trace, name: char) -> WorldRun {
                                 "TOPIC" | "MODE" | "USERHOST" | "JOIN" | "PING" | "NICK" | "PART" | "WHO" | "WHOIS" | "ISON" | "WALLOPS" => 1,
                                 _ => 0,
                             };
-                            if verb == "FROBNICATE" && !numerics.iter().any(|n| n == "421") {
+                            let unknown_verb = verb == "FROBNICATE" || !verb.is_ascii();
+                            if unknown_verb && !numerics.iter().any(|n| n == "421") {
                                 wr.local_violation = Some((step, "unknown_command_not_421".into(), format!("unknown command {:?} answered with {:?}", sent_txt, obs[S].lines)));
-                            } else if verb != "FROBNICATE" && tk.len() - 1 < min_arity && !numerics.iter().any(|n| n == "461") {
+                            } else if !unknown_verb && tk.len() - 1 < min_arity && !numerics.iter().any(|n| n == "461") {
                                 wr.local_violation = Some((step, "missing_params_not_461".into(), format!("{:?} lacks parameters but was answered with {:?}", sent_txt, obs[S].lines)));
-                            } else if verb == "FROBNICATE" || tk.len() - 1 < min_arity {
+                            } else if unknown_verb || tk.len() - 1 < min_arity {
                                 *wr.counters.entry("specific_error_ok".into()).or_insert(0) += 1;
                             }
                             let relay = ["PRIVMSG", "NOTICE", "TOPIC", "PART", "KICK", "NICK", "INVITE", "WALLOPS"].contains(&verb.as_str());
